@@ -51,5 +51,9 @@ func Spec_PowerSetSize(elements int) int {
 	if elements <= 0 {
 		return 0
 	}
+	// C20: 2^elements must not overflow (the validation loop over all unions would not run at all)
+	if elements >= 62 {
+		return int(^uint(0) >> 1)
+	}
 	return int(math.Pow(2, float64(elements)))
 }
